@@ -341,10 +341,19 @@ def _slice_form(c, fn, st, gname):
     # what is done to the sliced store afterwards keeps one row per retained sample for EVERY selection, the empty one included:
     # `array(rows).T[index]` picks a column through the transpose, which has no second axis when no row is retained (IndexError
     # where `[:, index]` / a per-row comprehension returns an empty array)
+    # (is the store a Python list of vectors?  the class's own `self.<store>.append(..)` says so)
+    list_store = isinstance(want_store, str) and any(
+        isinstance(x, ast.Call) and isinstance(x.func, ast.Attribute) and x.func.attr == "append" and U(x.func.value) == f"self.{want_store}"
+        for m_ in c.methods.values() for x in ast.walk(m_))
     if len(subs) == 1 and not problems:
         for r_ in ast.walk(fn):
             if isinstance(r_, ast.Return) and r_.value is not None:
                 for x in ast.walk(r_.value):
+                    # the same for `array(<list of vectors>[b::t])[:, index]`: an empty list makes a 1-D empty array
+                    if isinstance(x, ast.Subscript) and isinstance(x.slice, ast.Tuple) and len(x.slice.elts) == 2 and isinstance(x.value, ast.Call) \
+                            and U(x.value.func) in ("array", "asarray") and x.value.args and x.value.args[0] is subs[0] and list_store:
+                        problems.append(f"`{U(x)[:80]}` indexes the second axis of an array built from a list of vectors: with no row retained "
+                                        f"the array is one-dimensional (the read-out raises instead of returning an empty array)")
                     if isinstance(x, ast.Subscript) and isinstance(x.value, ast.Attribute) and x.value.attr == "T" \
                             and any(y is subs[0] for y in ast.walk(x.value.value)):
                         problems.append(f"`{U(x)[:80]}` indexes the transpose of the retained rows: with no row retained there is no such axis "
@@ -456,6 +465,8 @@ def _parallel(prog, c, fn):
                 continue
             tgt, val = st.targets[0], st.value
             pairs = []
+            if isinstance(tgt, ast.Name) and tgt.id == "burn" and "burn" in [a.arg for a in fn.args.args]:
+                problems.append(f"`{U(st)[:80]}` replaces the caller's burn: the interval is taken from other rows than the documented burn, burn + thin, ..")
             if isinstance(tgt, ast.Name) and tgt.id == "thin" and "thin" in [a.arg for a in fn.args.args]:
                 # the thinning derived from a requested number of rows is a positive step: size // samples is 0 as soon as more rows
                 # are requested than are stored, and a slice step of 0 raises
